@@ -657,6 +657,16 @@ def run(ctx):
     env()
     rng = ctx.rng
     thorough = ctx.thorough()
+    # ---------------- wiring: a stop is aimed at one machine ----------------
+    # With the production binding (bardolph.lib.clock.configure, as light_module.configure does) every Machine gets a clock
+    # of its own; Machine.stop() stops the clock of its machine, so a shared clock would make one script's stop end the
+    # delays of every other script that is running (foreground next to background).
+    from bardolph.vm.machine import Machine
+    ma, mb = Machine(), Machine()
+    ctx.count()
+    if ma._clock is mb._clock:
+        ctx.counterexample('C09/machines-share-one-clock', 'two machines created under the production clock binding share one Clock object: '
+                           'Machine.stop() of one script stops the clock that times the delays of the other', {'binding': 'bardolph.lib.clock.configure()'})
     coq_cases = []          # (label, prog, sched, expected trace, trace term, python verdicts)
     n_runs = 0
     own_hist = {}
